@@ -44,7 +44,7 @@ pub fn body_len(ty: u8) -> usize {
 }
 
 /// a well-formed frame of the given type with random field values and the given TLV suffix
-pub fn valid_frame(rng: &mut Prng, ty: u8, suffix: &[u8]) -> Vec<u8> {
+pub fn valid_frame(rng: &Prng, ty: u8, suffix: &[u8]) -> Vec<u8> {
     let bl = body_len(ty);
     let total = 34 + bl + suffix.len();
     let mut f = rng.bytes(34 + bl);
@@ -64,7 +64,7 @@ pub fn tlv(ty: u16, value: &[u8]) -> Vec<u8> {
 
 const TLV_TYPES: [u16; 16] = [0x0000, 0x0001, 0x0003, 0x0008, 0x0009, 0x000a, 0x2000, 0x2004, 0x3fff, 0x4000, 0x4001, 0x7f00, 0x7fff, 0x8000, 0x8009, 0xffff];
 
-fn random_suffix(rng: &mut Prng) -> Vec<u8> {
+fn random_suffix(rng: &Prng) -> Vec<u8> {
     let mut s = Vec::new();
     let n = rng.below(4);
     for _ in 0..n {
@@ -82,7 +82,7 @@ struct Oracle<'a> {
 
 impl Oracle<'_> {
     /// all C04 predicates on one input, on the implementation only
-    fn check(&mut self, b: &[u8], rng: &mut Prng) {
+    fn check(&mut self, b: &[u8], rng: &Prng) {
         self.out.count("oracle.inputs");
         let h = hex(b);
         let (dump, re) = match guarded(|| (hook::decode_dump(b), hook::decode_reencode(b, 70_000))) {
@@ -164,9 +164,9 @@ fn be16(b: &[u8], i: usize) -> u16 {
     ((b[i] as u16) << 8) | b[i + 1] as u16
 }
 
-pub fn generate(out: &mut Out, rng: &mut Prng, thorough: bool) {
+pub fn generate(out: &mut Out, rng: &Prng, thorough: bool) {
     let mut ex = WireExec;
-    let mut orng = rng.fork();
+    let orng = rng.fork();
     let mut emit = |out: &mut Out, b: &[u8], class: &str| {
         let line = format!("DEC {}", hex(b));
         let obs = ex.exec(&line);
@@ -177,7 +177,7 @@ pub fn generate(out: &mut Out, rng: &mut Prng, thorough: bool) {
             out.count(&format!("decoded.type-{:x}", b[0] & 0xf));
         }
         out.op(&line, &obs);
-        Oracle { out }.check(b, &mut orng);
+        Oracle { out }.check(b, &orng);
     };
 
     // 1. every message type x every flag-field combination (exhaustive 2^16) on a fixed base frame
